@@ -14,6 +14,7 @@ import (
 
 	"verif/harness/internal/dom"
 	"verif/harness/internal/pbt"
+	"verif/harness/internal/via"
 )
 
 func TestMain(m *testing.M) { pbt.Main(m, "C06") }
@@ -120,7 +121,7 @@ func build(c Case) heap {
 				out = append(out, it.Value())
 			}
 			return out
-		}, h.FromJSON, rewound(h.Iterator())}
+		}, via.AutoLoader(h), rewound(h.Iterator())}
 	}
 	q := priorityqueue.NewWith(f)
 	return heap{func(is ...Item) {
@@ -133,7 +134,7 @@ func build(c Case) heap {
 			out = append(out, it.Value())
 		}
 		return out
-	}, q.FromJSON, rewound(q.Iterator())}
+	}, via.AutoLoader(q), rewound(q.Iterator())}
 }
 
 func check(c Case) (pbt.Info, error) {
